@@ -177,6 +177,10 @@ def conv_operator(grid, w, modes, overrides=(), override_order='after'):
             ov[tuple(int(t) for t in ijk)] = float(value)
     lo = (modes[0], modes[2], modes[4])
     hi = (modes[1], modes[3], modes[5])
+    # per-axis extension tables: coordinate t in [-p, n+p) -> source index or ('c', value)
+    tx = {t: ext_index(t, nx, lo[0], hi[0]) for t in range(-px, nx + px)}
+    ty = {t: ext_index(t, ny, lo[1], hi[1]) for t in range(-py, ny + py)}
+    tz = {t: ext_index(t, nz, lo[2], hi[2]) for t in range(-pz, nz + pz)} if grid[2] > 0 else {0: 0}
     for (i, j, k) in elem_indices(grid):
         row = elem_number(grid, i, j, k)
         for a in range(-px, px + 1):
@@ -184,13 +188,10 @@ def conv_operator(grid, w, modes, overrides=(), override_order='after'):
                 for cc in range(-pz, pz + 1):
                     wt = w3[a + px, b + py, cc + pz]
                     pos = (i - a, j - b, k - cc)           # convolution: y[i] = sum_a w[a] X[i-a]
-                    inside = 0 <= pos[0] < nx and 0 <= pos[1] < ny and 0 <= pos[2] < nz
-                    if override_order == 'after' and inside and pos in ov:
+                    if ov and override_order == 'after' and pos in ov:   # keys of ov are interior elements only
                         c[row] += wt * ov[pos]
                         continue
-                    src = [ext_index(pos[0], nx, lo[0], hi[0]),
-                           ext_index(pos[1], ny, lo[1], hi[1]),
-                           ext_index(pos[2], nz, lo[2], hi[2]) if grid[2] > 0 else pos[2]]
+                    src = (tx[pos[0]], ty[pos[1]], tz[pos[2]])
                     const = None
                     for s in src:                        # later axis wins
                         if isinstance(s, tuple):
@@ -198,11 +199,10 @@ def conv_operator(grid, w, modes, overrides=(), override_order='after'):
                     if const is not None:
                         c[row] += wt * const
                         continue
-                    src = tuple(src)
-                    if override_order == 'before' and src in ov:
+                    if ov and override_order == 'before' and src in ov:
                         c[row] += wt * ov[src]
                         continue
-                    A[row, elem_number(grid, *src)] += wt
+                    A[row, (src[2] * ny + src[1]) * nx + src[0]] += wt
     return A, c
 
 
